@@ -7,7 +7,8 @@ COQ_IMPORTS = ['C05_Model']
 ALPHA = 'ACGTRYSWKMBDHVN.-'
 OPS = {'complement': 0, 'rc': 1, 'rev_complement': 2, 'rc_rc': 3, 'gc': 4, 'reverse': 5}
 RULE = ('all 18 single symbols, every string up to length 2 (quick) / 4 (thorough) over the 17-symbol alphabet, random DNA/RNA '
-        'strings up to 3000 residues; ops complement, rc, reverse.complement, rc.rc, gc counts, seq- and basket-level; a history stream '
+        'strings up to 3000 residues and 65 600 / 66 000 residues with ambiguity codes / U only at the far end (rc, complement, reverse.complement; '
+        'evaluated by run_C05_lin, proved equal); ops complement, rc, reverse.complement, rc.rc, gc counts, seq- and basket-level; a history stream '
         '(object edited in place - alphabet switched, residues assigned, +=, copy, rc - before the operation; baskets holding a sequence '
         'next to its own reverse complement or a duplicate, without ids); '
         'object histories (run_C05_hist): 1-4 sequences built through the constructor (lower case, type None/nt/aa) or by data assignment '
@@ -62,9 +63,12 @@ def gen_cases(rng, tier):
         pre_ = ''.join(rng.choice('ACGTN') for _ in range(997)) * (n // 997)
         body = pre_ + tail if 'U' not in tail else pre_.replace('T', 'A') + tail
         cases.append({'op': 'rc', 's': body, 'basket': False})
+        cases.append({'op': 'complement' if 'U' in tail else 'rev_complement', 's': body, 'basket': False})
         if tier == 'thorough':
             cases.append({'op': 'complement', 's': body, 'basket': True})
             cases.append({'op': 'rc', 's': pre_ + pre_ + tail, 'basket': True})
+            cases.append({'op': 'rc_rc', 's': body, 'basket': False})
+            cases.append({'op': 'reverse', 's': body, 'basket': True})
     # history stream: the object is built from one string and edited in place (alphabet switched, residues assigned,
     # copied) before the operation; baskets with several sequences incl. a sequence next to its own reverse complement
     nhist = 3000 if tier == 'thorough' else 400
